@@ -1809,3 +1809,96 @@ def recursion_cycles(ctx, res, rule="R-RECURSE"):
     ctx.instance(rule + ".closure_fns", len(nodes))
     ctx.instance(rule + ".recursive_calls", n)
     return n
+
+
+# ------------------------------------------------------------------ R-ARITH.sum
+def narrow_sums(ctx, fx, entries, rule="R-ARITH.sum", res=None):
+    """`Iterator::sum` / `product` adds with the plain `+` of the element type: overflow panics in debug builds and wraps
+    in release builds. In every function reachable (call graph, resolved callees) from a parser entry point, a sum into
+    an integer of at most 32 bits whose iterator derives from a parameter of the function - a table handed in by the
+    decoder - is reported; `try_fold(.., checked_add)`, a widened `map(|x| x as u64).sum::<u64>()` or a fold with
+    saturating arithmetic are the accepted forms (they are not `Iterator::sum` calls)."""
+    seen = set(entries)
+    work = list(entries)
+    parent = {}
+    while work:
+        x = work.pop()
+        rec = fx.cg.get(x)
+        if not rec:
+            continue
+        for c in rec["calls"]:
+            if c[0] in fx.cg and c[0] not in seen and "::tests::" not in c[0]:
+                seen.add(c[0])
+                parent[c[0]] = x
+                work.append(c[0])
+    n = 0
+    for fid in sorted(seen):
+        for k in range(fx.count(fid)):
+            fn = Fn(fx.raw(fid, k))
+            for b, c in fn.calls():
+                if not re.search(r"Iterator::(sum|product)$", c["f"]) or not c["a"]:
+                    continue
+                ty = fn.ty(c["d"][0])
+                l = op_local(c["a"][0])
+                if l is None:
+                    continue
+                locs, _ = fn.backslice([l], max_nodes=40)
+                from_param = [i for i in range(1, fn.nargs + 1) if i in locs]
+                if not from_param and res is not None and fid in res and k == 0:
+                    # a local collection filled from untrusted integers (taint engine: container contents)
+                    rfn, ft = res[fid]
+                    for bb, cc in rfn.calls():
+                        if cc["ln"] == c["ln"] and cc["f"] == c["f"]:
+                            loc = (bb, len(rfn.stmts(bb)))
+                            tainted = set()
+                            for x in locs:
+                                try:
+                                    tainted |= set(ft.roots_at(loc, ["c", [x]]) or ())
+                                except Exception:
+                                    pass
+                            if tainted:
+                                from_param = ["untrusted"]
+                if not from_param:
+                    continue
+                n += 1
+                ctx.analysed_fns.add(fid)
+                ok = ty not in ("u8", "u16", "u32", "i8", "i16", "i32")
+                chain, x = [], fid
+                while x in parent and len(chain) < 4:
+                    x = parent[x]
+                    chain.append(x.rsplit("::", 1)[-1])
+                ctx.obligation(rule, fid, "sum over a parameter table cannot overflow", ok,
+                               sample={"fn": fid, "line": c["ln"], "result_type": ty, "reached_from": chain})
+                if not ok:
+                    ctx.violation(rule, fid, "unchecked %s sum over a table parameter" % ty,
+                                  "%s adds the entries of a table it is handed with Iterator::%s into %s (line %d) and is reachable from "
+                                  "the decoder entry %s: a table read from a malformed frame overflows the sum - a panic in debug builds, a "
+                                  "wrapped total in release builds" % (fid.rsplit("::", 1)[-1], c["f"].rsplit("::", 1)[-1], ty, c["ln"],
+                                                                        chain[-1] if chain else fid.rsplit("::", 1)[-1]), fn.file, c["ln"])
+    ctx.instance(rule + ".reachable_fns", len(seen))
+    ctx.instance(rule + ".sums", n)
+    return n
+
+
+# ------------------------------------------------------------------ R-STRSLICE
+def str_byte_slices(ctx, res, rule="R-STRSLICE"):
+    """`&s[a..b]` on a `str` panics when a or b is not a char boundary. In the parser closure a byte-offset range index
+    of a `&str` (`Index<I> for str`) is accepted only under a dominating `is_char_boundary` / `is_ascii` test (or via
+    `get(a..b)`, which is a different callee): text that arrives from outside can put a multi-byte character across
+    any fixed offset - typically on the error path that wants to quote the offending piece."""
+    n = 0
+    for fid, (fn, ft) in sorted(res.items()):
+        checks = [b for b, c in fn.calls() if c["f"].rsplit("::", 1)[-1] in ("is_char_boundary", "is_ascii")]
+        for b, c in fn.calls():
+            if not re.search(r"Index<[^>]*> for str>::index$|IndexMut<[^>]*> for str>::index_mut$", c["f"]):
+                continue
+            n += 1
+            ok = any(fn.dominates(cb, b) and cb != b for cb in checks)
+            ctx.obligation(rule, fid, "str range index under a char-boundary test", ok, sample={"fn": fid, "line": c["ln"]})
+            if not ok:
+                ctx.violation(rule, fid, "byte-offset slice of untrusted text",
+                              "%s slices a &str by byte offsets (line %d) without an is_char_boundary / is_ascii test: input with a "
+                              "multi-byte character across the offset panics instead of returning Err" % (fid.rsplit("::", 1)[-1], c["ln"]),
+                              fn.file, c["ln"])
+    ctx.instance(rule + ".sites", n)
+    return n
